@@ -114,9 +114,10 @@ def run(ch, idx, tier):
         except at.BadInitialization:
             res_b = None
     blob = pickle.dumps(res)
+    blob_b = pickle.dumps(res_b) if res_b is not None else None
 
-    def pristine():
-        return pickle.loads(blob)
+    def pristine(which="shared"):
+        return pickle.loads(blob if which == "shared" else blob_b)
 
     d_res0 = digest_result(res)
     d_aux0 = digest_obj([res.model.progset, res.model.program_instructions, res.model.framework])
@@ -224,10 +225,18 @@ def run(ch, idx, tier):
             else:
                 bump("query_refused")
             return None
+        iso_b = {}
+        if isinstance(results_arg, list):
+            # the second result's answers must not depend on the first result being in the same call
+            for ospec in outputs[:2]:
+                for pspec in pops_specs[:2]:
+                    try:
+                        di = at.PlotData(pristine("second"), outputs=[ospec], pops=[pspec], output_aggregation=oa, pop_aggregation=pa, **kw)
+                        iso_b[(_key(pspec), _key(ospec))] = di.series[0]
+                    except Exception:
+                        pass
         for s in d.series:
-            if s.result != "shared":
-                continue
-            ref = iso.get((s.pop, s.output))
+            ref = iso.get((s.pop, s.output)) if s.result == "shared" else iso_b.get((s.pop, s.output))
             if ref is None:
                 continue
             compared += 1
